@@ -121,7 +121,12 @@ def run(ctx):
     for b in bad:
         o = {"rl": rlobs, "v": vobs, "c": cobs}[b["kind"]][b["i"] - 1]
         if b["j"] == "viol":
-            if b["kind"] == "rl":
+            if b["why"] == "limit-signal-ignored-at-start":
+                key = "start-state:%s:signal%d-ignored" % ("container" if o["runner"] in ("cbefore", "cafter") else o["runner"], b["res"])
+                ign = o["ign"] if b["kind"] == "rl" else [l["v"] for l in o["report"] if l["t"] == "ign"]
+                what = "under %s the program is started with signal %d ignored (ignored on entry: %s; the caller ignores: %s): crossing the limit has no effect" % (
+                    o["runner"], b["res"], ign, o["callerign"])
+            elif b["kind"] == "rl":
                 key = "rl:%s:%s:res%d" % (o["name"], b["why"], b["res"])
                 what = "%s under %s: record %s, resource %d: program saw %s" % (
                     b["why"], o["runner"], o["name"], b["res"],
@@ -150,6 +155,8 @@ def run(ctx):
     ctx.cov["kernel_truth_mismatches"] = len(incon)
     ctx.cov["limit_record_runs"] = len(rlobs)
     ctx.cov["verdict_runs"] = len(vobs)
+    ctx.cov["start_dispositions_checked"] = len(rlobs) + len(vobs)
+    ctx.cov["ignored_on_entry_by_runner"] = dict((ru, sorted(set(x for o in rlobs if o["runner"] == ru for x in o["ign"]))) for ru in RUNNERS)
     ctx.cov["bound_exceeded_then_signal_or_cancel"] = sum(1 for o in vobs if o["scen"] in ("mem-over", "time-over") and o["end"] in ("fault:segv", "hang") and o["limited"])
     ctx.cov["collector_cases"] = len(cobs)
     ctx.cov["records_refused_by_kernel_as_modelled"] = sum(1 for o in rlobs if o["status"] == 8)
@@ -166,6 +173,7 @@ def run(ctx):
         "no CAP_SYS_RESOURCE in the initial user namespace: a record whose hard limit exceeds the inherited one must be refused (Runner Error with text); hard limits above the host's can therefore not be observed in force",
         "value classes: unset, small, >= 2^32 (never a multiple of 2^32 plus the small value of another field)",
         "what ended a verdict program is read from its own report; a CPU burner that vanished under RLIMIT_CPU was ended by SIGXCPU or the hard limit's SIGKILL (both are Time Limit Exceeded)",
+        "start state: SIGXCPU/SIGXFSZ must not be ignored on entry unless the driver itself ignores them (SigIgn of /proc/self/status); the limit programs keep the dispositions they inherit; other inherited dispositions are reported (ignored_on_entry_by_runner), not judged here",
         "runner.Limit exists for the ptrace and namespace runners only; in the container only the rlimit verdicts apply",
         "writer blocked = still alive %d s after start (volumes <= 1.4 MB)" % (cap_ms // 1000),
         "`>` vs `>=` at the bound is observable only when a measurement repeats exactly (mem-equal, reported as mem_equal_bound_hits)",
